@@ -119,9 +119,10 @@ func IterateConsensusStateAscending(clientStore sdk.KVStore,
 
 	for ; iterator.Valid(); iterator.Next() {
 		key := iterator.Key()
-		keySplit := strings.Split(string(key), "/")
+		// the height is 16 raw bytes and may itself contain the separator
+		keySplit := strings.SplitN(string(key), "/", 2)
 		// processed time key in prefix store has format: "consensusStates/<height>"
-		if len(keySplit) != 2 {
+		if len(keySplit) != 2 || len(keySplit[1]) != 16 {
 			// ignore all not consensus state keys
 			continue
 		}
